@@ -72,7 +72,7 @@ PROPS["C04"] = dict(
         "held on the generated committees/corruptions only",
     ],
     stages=[dict(name="release", flavour="release", **E2)],
-    floors={"quick": {"boundary_exactly_reaching_quorum": 200, "boundary_just_below_quorum": 200, "overlap_corruptions": 50, "incremental_qc_reached_quorum": 200, "CommitQC_genuine": 500, "TimeoutQC_genuine": 500},
+    floors={"quick": {"boundary_exactly_reaching_quorum": 200, "boundary_just_below_quorum": 200, "overlap_corruptions": 50, "incremental_qc_reached_quorum": 200, "CommitQC_genuine": 500, "TimeoutQC_genuine": 500, "nested_forgery_after_genuine_in_map_order": 100, "nested_forgery_before_genuine_in_map_order": 100},
             "thorough": {"boundary_exactly_reaching_quorum": 2000}},
 )
 
@@ -114,4 +114,78 @@ PROPS["C09"] = dict(
     stages=[dict(name="public-types", flavour="release", **E2)],
     floors={"quick": {"alternative_serialisations_differing_from_canonical": 50000, "packed_unpacked_variants": 5000, "construction_order_cases": 1000, "values_TimeoutQC": 1000, "values_Duration": 1000},
             "thorough": {"packed_unpacked_variants": 50000}},
+)
+
+SIM = dict(crate="sim")
+_SIM_ASSUME = [
+    "the simulated environment (harness network, storage, clock, Byzantine signer) is the trusted base; replicas run the unmodified bft::Config::run through public channels, observed through the cfg-guarded read-only observer",
+    "held on the executions produced (sampled schedules / faults), not on all schedules",
+]
+
+PROPS["C01"] = dict(
+    title="Agreement: correct nodes never commit conflicting blocks",
+    level="exploration",
+    technique="runtime monitoring of the real replicas in a deterministic simulator: global number->payload map over every block handed to storage, append-only/gap-free per node, independent re-verification of every committed block",
+    explanation="N real replicas (bft::Config::run) of generated committees (1-9 validators, five weight families, both leader-selection modes, "
+    "eligible subsets, <= f weight Byzantine) run on one deterministic runtime with a manual clock; the harness is network (loss, duplication, "
+    "reordering, partitions, replays), storage, block sync (incl. forged blocks) and the Byzantine validators (equivocating proposals, votes for "
+    "everything, lying timeout votes, early/old certificates, floods, other chain/epoch, non-members), plus crashes/restarts. Directed families "
+    "(equivocating-leader, hidden-commit, timeout-liar, lagging-sync) create the shapes known to threaten agreement. Every block any correct node "
+    "hands to storage is checked against a global map, the per-node sequence, and FinalBlock::verify.",
+    assumptions=_SIM_ASSUME,
+    stages=[dict(name="sim", flavour="release", **SIM)],
+    floors={"quick": {"cases_with_commits": 60, "blocks_handed_to_storage": 2000, "byzantine_messages_accepted_total": 200, "cases_hidden-commit": 10, "cases_equivocating-leader": 10},
+            "thorough": {"cases_with_commits": 1000}},
+)
+
+PROPS["C02"]["stages"].append(dict(name="sim-history", flavour="release", **SIM))
+PROPS["C02"]["explanation"] += (" (b) In the replica simulator (see C01) a history monitor maintains, from the commit votes emitted by correct replicas plus all "
+    "faulty weight, the set of payloads per block number that could gather a commit quorum in some view; two payloads for one number, or a correct "
+    "vote in a later view against a potential certificate, is a violation even if no node assembled either certificate.")
+PROPS["C02"]["floors"]["quick"].update({"potential_certificates": 300, "cases_with_commits": 60})
+
+PROPS["C03"] = dict(
+    title="No vote equivocation by a correct validator, even across crashes",
+    level="fault_enumeration",
+    technique="runtime monitoring with crash-point enumeration: online checker over every message signed per validator key across incarnations + persist-before-send check against the durable state at every observation",
+    explanation="In the replica simulator (see C01) every message a correct validator puts on its outbound channel is observed together with the durable "
+    "replica state at that instant (the harness' EngineInterface drains the outbound channel inside every set_state/queue_next_block call before applying the write). "
+    "Oracle per key across incarnations: no two different commit votes per view, no commit vote at or below a view with a signed timeout vote, vote views never "
+    "decrease, and every commit/timeout/new-view message on the wire is covered by the durable state (persist-before-send). Crash enumeration: a base run numbers "
+    "the durable writes of a target replica; the same deterministic case is re-run with the process killed inside write i (all i in thorough, a sample in quick) x "
+    "{applied, not applied}, restarted from the durable state and fed the same / the other proposal of an equivocating leader and stale traffic.",
+    assumptions=_SIM_ASSUME + ["crash points = durable-write calls (set_state, queue_next_block) of the executed scenarios; scenarios themselves are sampled"],
+    stages=[dict(name="sim-crash", flavour="release", **SIM)],
+    floors={"quick": {"crash_points_exercised": 200, "crash_with_write_applied": 80, "crash_with_write_not_applied": 80, "commit_votes_checked": 2000, "timeout_votes_checked": 2000},
+            "thorough": {"crash_points_exercised": 3000}},
+)
+
+PROPS["C05"] = dict(
+    title="View changes are justified, monotone and follow the specification",
+    level="exploration",
+    technique="runtime monitoring: invariant and monotonicity checkers on replica snapshots and durable states, isolation re-verification of every certificate held or emitted, self-justification checker on every outbound message",
+    explanation="In the replica simulator (see C01) the read-only observer delivers a snapshot after every step of every replica. Checked on every snapshot and "
+    "every durable state: view = 0 with no certificate or view = 1 + max(view of highest commit / timeout certificate) (a replica is never ahead of nor behind the "
+    "newest certificate it holds, i.e. every view change is backed by a certificate for the preceding view); view and both certificate views never decrease within "
+    "an incarnation nor across restarts; every certificate held verifies in isolation with the harness' own verify call. Checked on every emitted message: signature "
+    "valid; new-view carries exactly the higher of the two certificates held (commit on a tie) and it verifies; timeout vote carries exactly the recorded high vote / "
+    "high commit certificate; proposal is by the view's leader, its justification verifies, and payload presence follows the re-proposal rule.",
+    assumptions=_SIM_ASSUME + ["conformance to spec/informal-spec/replica.rs is checked through these derived invariants and the per-input accept/reject statistics, not by a step-by-step model diff"],
+    stages=[dict(name="sim", flavour="release", **SIM)],
+    floors={"quick": {"snapshots_checked": 100000, "durable_states_checked": 10000, "view_changes_observed": 3000, "new_views_checked": 3000, "proposals_checked": 500, "timeout_votes_checked": 2000, "restarts": 100},
+            "thorough": {"snapshots_checked": 1000000}},
+)
+
+PROPS["C06"] = dict(
+    title="Progress: after the network heals, new blocks are committed",
+    level="exploration",
+    technique="runtime monitoring in virtual time: bounded-progress checker + fixed-point (deadlock) detector over a fair synchronous suffix after an adversarial prefix",
+    explanation="In the replica simulator (see C01) an adversarial prefix (partitions, loss, reordering, Byzantine traffic, hidden commits, crashes) is followed by a fair "
+    "synchronous suffix: all correct replicas up, every in-flight message delivered, block sync to fixpoint, and only when nothing is in flight the manual clock advances by "
+    "one view timeout. Oracle: every correct node stores a block nobody had before the suffix within 8 + 3 x (longest run of faulty-leader views) timeouts; an unchanged "
+    "global state over consecutive rounds is reported as a deadlock regardless of the bound; a replica that stops on its own is a violation. The distribution of timeouts "
+    "needed is recorded in the evidence (calibration: max observed on the unchanged tree is far below the bound).",
+    assumptions=_SIM_ASSUME + ["liveness is decided only in its bounded virtual-time form; real-time liveness under the production scheduler/network is out of reach of this family"],
+    stages=[dict(name="sim-heal", flavour="release", **SIM)],
+    floors={"quick": {"fair_suffixes_that_progressed": 80, "cases_with_commits": 80}, "thorough": {"fair_suffixes_that_progressed": 1000}},
 )
